@@ -360,15 +360,18 @@ where
                 .unknown_source()
         })?;
 
-        if max_cycles < cycles {
+        // cycles the suspended group has already consumed in earlier chunks
+        let consumed_in_group = snap.state.as_ref().map(|s| s.total_cycles).unwrap_or(0);
+        let already = cycles.saturating_add(consumed_in_group);
+        if max_cycles < already {
             return Err(ScriptError::ExceededMaximumCycles(max_cycles)
                 .source(current_group)
                 .into());
         }
 
         // continue snapshot current script
-        // max_cycles - cycles checked
-        match self.verify_group_with_chunk(current_group, max_cycles - cycles, &snap.state) {
+        // max_cycles - already checked
+        match self.verify_group_with_chunk(current_group, max_cycles - already, &snap.state) {
             Ok(ChunkState::Completed(used_cycles, _consumed_cycles)) => {
                 cycles = wrapping_cycles_add(cycles, used_cycles, current_group)?;
             }
